@@ -25,6 +25,13 @@ def rand_descriptors(rng):
         elif r < 0.5:
             tr = []
         out.append({"id": rng.bytes_(rng.choice([1, 16, 32, 64])), "transports": tr})
+    # the caller's list is the caller's: repeated ids (same credential listed twice, with different transports), repeated
+    # whole entries and a particular order are all "values the caller gives"
+    if out and rng.random() < 0.3:
+        d = dict(out[rng.randrange(len(out))])
+        if rng.random() < 0.6:
+            d["transports"] = rng.sample(TRANSPORTS, rng.randrange(1, 3)) if d["transports"] is None or rng.random() < 0.5 else None
+        out.insert(rng.randrange(len(out) + 1), d)
     return out
 
 
